@@ -126,7 +126,7 @@ func NewSpec() *Spec {
 var labelRe = regexp.MustCompile(`^\[([^\]]*)\]\s*`)
 var clauseKeywords = map[string]bool{"func": true, "spec": true, "ghost": true, "axiom": true, "import": true, "requires": true,
 	"ensures": true, "loop": true, "assert@call": true, "prologue": true, "epilogue": true, "modifies": true, "pure": true,
-	"assumed": true, "trusted": true, "maypanic": true, "lemma": true, "ground": true, "roundtrip": true, "jsoncompat": true, "jsonoverwrite": true, "tables": true, "orderfree": true, "secretflow": true, "nocall": true, "noeq": true, "orderaccept": true, "erroronly": true, "nosafety": true, "safetykinds": true, "params": true, "safety": true, "fvtargets": true}
+	"assumed": true, "trusted": true, "maypanic": true, "lemma": true, "ground": true, "roundtrip": true, "jsoncompat": true, "jsonoverwrite": true, "tables": true, "orderfree": true, "secretflow": true, "nocall": true, "noeq": true, "recovers": true, "orderaccept": true, "erroronly": true, "nosafety": true, "safetykinds": true, "params": true, "safety": true, "fvtargets": true}
 
 func splitLabels(rest string) ([]string, string) {
 	if m := labelRe.FindStringSubmatch(rest); m != nil {
@@ -357,7 +357,7 @@ func (s *Spec) ParseSpecFile(path, pkgPath string) error {
 				return fail("orderaccept <function>#<ordinal> <reason>")
 			}
 			s.OrderAccept[parts[0]] = strings.TrimSpace(parts[1])
-		case "roundtrip", "jsoncompat", "jsonoverwrite", "tables", "orderfree", "secretflow", "nocall", "noeq":
+		case "roundtrip", "jsoncompat", "jsonoverwrite", "tables", "orderfree", "secretflow", "nocall", "noeq", "recovers":
 			// JSON judgements over the type declarations (jsonrt.go)
 			labels, text := splitLabels(rest)
 			c := &Clause{Kind: kw, Labels: labels, Text: text, File: path, Line: rl.line}
